@@ -25,8 +25,8 @@ M = [
      "                    byteshift = (num_bytes-b-1) if big_endian else b\n",
      "                    byteshift = (num_bytes-b-1) if (big_endian or num_bytes == 3) else b\n"),
     ('c01_mask_one_bit_short', 'C01', 'FlowCal/io.py',
-     "                bits_used = int(np.ceil(np.log2(param_ranges[col])))\n",
-     "                bits_used = int(np.floor(np.log2(param_ranges[col])))\n"),
+     "                bits_used = (int(np.ceil(param_ranges[col])) - 1).bit_length()\n",
+     "                bits_used = int(param_ranges[col]).bit_length() - 1\n"),
     ('c01_double_always_big_endian', 'C01', 'FlowCal/io.py',
      "        dtype = np.dtype('{0}f{1}'.format('>' if big_endian else '<',\n                                          num_bits//8))",
      "        dtype = np.dtype('{0}f{1}'.format('>' if (big_endian or num_bits == 64) else '<',\n                                          num_bits//8))"),
@@ -72,12 +72,12 @@ M = [
     ('c13_hist_bins_log_writes_range', 'C13', 'FlowCal/io.py',
      "            range_channel = list(self.range(channel))\n",
      "            range_channel = self.range(channel)\n"),
-    ('c13_high_low_clips_defaults_in_place', 'C13', 'FlowCal/gate.py',
-     "            low = [-np.Inf if di is None else di[0] for di in data_ch.range()]\n            low = np.array(low)",
-     "            low = [-np.Inf if di is None else di[0] for di in data_ch.range()]\n            low = np.array(low)\n            for di in data.range():\n                if di is not None and di[0] == 0:\n                    di[0] = 0.0 - 0.0"),
-    ('c11_narrow_ioerror', 'C11', 'FlowCal/excel_ui.py',
-     "                sample = FlowCal.io.FCSData(filename)\n            except IOError:",
-     "                if not os.path.exists(filename):\n                    raise IOError(filename)\n                sample = FlowCal.io.FCSData(filename)\n            except IOError:"),
+    ('c13_median_overwrite_input', 'C13', 'FlowCal/stats.py',
+     "    return np.median(data_stats, axis=0)\n",
+     "    return np.median(data_stats, axis=0, overwrite_input=True)\n"),
+    ('c11_check_then_open', 'C11', 'FlowCal/excel_ui.py',
+     "            try:\n                sample = FlowCal.io.FCSData(filename)\n            except IOError:\n                raise ExcelUIException(\"file \\\"{}\\\" not found\".format(\n                    sample_row['File Path']))",
+     "            if not os.path.isfile(filename):\n                raise ExcelUIException(\"file \\\"{}\\\" not found\".format(\n                    sample_row['File Path']))\n            sample = FlowCal.io.FCSData(filename)"),
     ('c11_report_channels_leak_across_rows', 'C11', 'FlowCal/excel_ui.py',
      "    for sample_id, sample_row in samples_table.iterrows():\n        try:",
      "    report_channels = []\n    report_units = []\n    for sample_id, sample_row in samples_table.iterrows():\n        try:"),
